@@ -32,6 +32,10 @@ void UncompressedFile::read(char * s, std::streamsize n) {
     /* mutex lock */
     std::unique_lock<std::mutex> lock(m_mutex);
 
+    /* tell writers how much data is needed, so they don't wait for free space */
+    m_tellgRequested = m_tellg + n;
+    tellgChanged.notify_all();
+
     /* wait until there is sufficient data */
     tellpChanged.wait(lock, [&] {
         return
@@ -108,7 +112,8 @@ void UncompressedFile::write(const char * s, std::streamsize n) {
     tellgChanged.wait(lock, [&] {
         return
         m_abort ||
-        ((m_tellp - m_tellg) < m_bufferSize);
+        ((m_tellp - m_tellg) < m_bufferSize) ||
+        (m_tellp < m_tellgRequested);
     });
 
     /* write data */
@@ -201,7 +206,8 @@ void UncompressedFile::write(const std::shared_ptr<LogContainer> & logContainer)
     tellgChanged.wait(lock, [&] {
         return
         m_abort ||
-        static_cast<uint32_t>(m_tellp - m_tellg) < m_bufferSize;
+        (static_cast<uint32_t>(m_tellp - m_tellg) < m_bufferSize) ||
+        (m_tellp < m_tellgRequested);
     });
 
     /* append logContainer */
